@@ -95,7 +95,38 @@ func c02Wrap(w *core.WorkerCtx) {
 	world.EvalFor("C02", 1)
 }
 
+// c02ProbesAfterTruncation: a single chain of 1040 transfers among five wallets, a truncation from its only tip, then
+// the overspend probes: no wallet may spend one unit more than it owns over all vertices, live and checkpointed, each
+// counted once - in particular not the wallets paid right around the cut.
+func c02ProbesAfterTruncation(w *core.WorkerCtx) {
+	rng := core.Rand(w.Seed, "C02probes", w.Batch)
+	desc := "c02 probes after truncation: chain of 1040 transfers, truncation, every wallet tries to spend one unit more than it owns"
+	world := ledger.NewWorld(rng, w.R, []string{"C02"}, allSnapOracles, desc)
+	defer world.Close()
+	d, err := ledger.Setup(world, ledger.Profile{Nodes: 1, Users: 6, SupplyClass: 0, Delivery: "lockstep"})
+	if err != nil {
+		w.R.Inconc("setup failed: " + err.Error())
+		return
+	}
+	n := world.Nodes[0]
+	u := world.Users
+	world.Quiet = true
+	for i := 0; i < 1040; i++ {
+		// every wallet is paid in turn, so that whichever vertex ends up next to the cut pays one of them
+		t := world.NewTrx(u[0], u[1+i%5].Addr, spice.Melange{SupplementaryCurrency: uint64(100 + i%9)}, nil)
+		world.Propose(n, &t, "grow")
+	}
+	world.Quiet = false
+	world.Observe(n, ledger.OpInfo{Kind: "milestone", OK: true})
+	world.TruncateChecked(n, d, false)
+	world.OverspendProbes(n, d)
+	w.R.Count("c02_probe_scenarios_after_truncation", 1)
+}
+
 func c02Worker(w *core.WorkerCtx) {
+	if w.Batch == 4 {
+		c02ProbesAfterTruncation(w)
+	}
 	if w.Batch == 1 {
 		c02Wrap(w)
 	}
